@@ -155,7 +155,8 @@ impl ParseData for Core {
     }
 
     fn validate_body(&self, errors: &mut Accumulator) {
-        if let Data::Struct(fields) = &self.data {
+        // At most one field of a struct - or of one struct variant - can receive the unclaimed items.
+        fn check_flatten(fields: &Fields<InputField>, errors: &mut Accumulator) {
             let flatten_targets: Vec<_> = fields
                 .iter()
                 .filter_map(|field| {
@@ -173,6 +174,15 @@ impl ParseData for Core {
                         Error::custom("`#[darling(flatten)]` can only be applied to one field")
                             .with_span(&flatten.span()),
                     );
+                }
+            }
+        }
+
+        match &self.data {
+            Data::Struct(fields) => check_flatten(fields, errors),
+            Data::Enum(variants) => {
+                for variant in variants {
+                    check_flatten(variant.fields(), errors);
                 }
             }
         }
